@@ -89,6 +89,10 @@ const v2Total = 139968000
 
 func TestC05(t *testing.T) {
 	h := start(t, "C05", "complete enumeration of all 139,968,000 v2.0 metric assignments (each visited once, objects built with Set); a case is non-trivial when at least one environmental metric is not ND; distinct by construction")
+	if h.replaying() && h.replay.Kind == "concurrent-classes" {
+		doReplay(h, "concurrent-classes", runConcBatch)
+		return
+	}
 	if h.replaying() && h.replay.Kind == "score-history" {
 		doReplay(h, "score-history", checkScoreHist)
 		return
@@ -259,7 +263,7 @@ func TestC05(t *testing.T) {
 		a := v2Decode(int(m))
 		err := safely(checkV2Scores, a)
 		if err == nil {
-			t.Fatalf("HARNESS-ERROR C05: bulk evaluator flagged index %d (%s) but the single-case check passes", m, spec.Canon(spec.V2, a))
+			walkDisagrees(h, "C05", 0, int(m), fmt.Sprintf("index %d (%s)", m, spec.Canon(spec.V2, a)))
 		}
 		h.fail("v2-assignment", a, err)
 	}
